@@ -1,6 +1,7 @@
 import Pw.Model.Render
 import Pw.Spec.Errors
 import Pw.Spec.Cursor
+import Pw.Spec.Ext
 /-
   Line-protocol driver: reads `case || implementation result` lines, runs the model on the
   case, compares with the implementation's result and evaluates the property oracles on the
@@ -319,6 +320,46 @@ def oracleSimple (c : CaseIn) (chunks : List Bytes) (rkv : KV) : Option String :
         else if nC ≠ okCompletes then some ("C05:completes:C=" ++ toString nC ++ "/c+=" ++ toString okCompletes)
         else none
 
+/-- typed items of the client stream with the offset at which each ends -/
+def itemsWithEnd (L : Nat) : Nat → Nat → Bytes → List (Item × Nat)
+  | 0, _, _ => []
+  | fuel + 1, off, inp =>
+    match readItem L inp with
+    | none => []
+    | some (it, rest) =>
+      let endOff := off + (inp.length - rest.length)
+      (it, endOff) :: itemsWithEnd L fuel endOff rest
+
+/-- C06 oracle: replay the client's history through ExtSpec, giving each message the reply group
+    the implementation wrote while exactly that message had been delivered (`at=`), and the
+    callbacks it ran then (`#offset` suffix of the events) -/
+def oracleExt (c : CaseIn) (chunks : List Bytes) (rkv : KV) : Option String :=
+  let L := effLimit c.cfg.L
+  let n0 := match rd32 c.inp with | some (n, _) => n | none => 0
+  let rest := c.inp.drop n0
+  let items := itemsWithEnd L rest.length n0 rest
+  let ats : List Nat := ((get rkv "at").splitOn ",").filterMap (·.toNat?)
+  -- implChunks drops S*n placeholders; this campaign has none, so chunks and `at` are aligned
+  let types : List Char := chunks.map fun b => Char.ofNat (b.headD 0).toNat
+  let tagged := types.zip ats
+  let evs := ((get rkv "ev").splitOn ";").filter (· ≠ "")
+  let evOff : List Nat := evs.filterMap fun e =>
+    if e.startsWith "P:" ∨ e.startsWith "X:" then ((e.splitOn "#").getLast?).bind (·.toNat?) else none
+  let rec go (st : Spec.ExtState) (its : List (Item × Nat)) : Option String :=
+    match its with
+    | [] => none
+    | (it, off) :: r =>
+      let reply := (tagged.filter (·.2 = off)).map (·.1)
+      let nev := evOff.countP (· = off)
+      match Spec.extStep L st it reply nev with
+      | .error why => some ("C06:" ++ why ++ ":at=" ++ toString off ++ ":reply=" ++ String.ofList reply)
+      | .ok st' => go st' r
+  -- every write after the startup must be attributed to some message
+  let known := n0 :: items.map (·.2)
+  match tagged.find? (fun p => !known.contains p.2) with
+  | some p => some ("C06:reply-not-attributed:" ++ String.singleton p.1 ++ "@" ++ toString p.2)
+  | none => go {} items
+
 def oracle (c : CaseIn) (chunks : List Bytes) (rkv : KV) : Option String :=
   if c.camp = "errors" then oracleErrors c chunks
   else if c.camp = "params" then oracleParams c rkv
@@ -326,6 +367,7 @@ def oracle (c : CaseIn) (chunks : List Bytes) (rkv : KV) : Option String :=
   else if c.camp = "accessor" then oracleAccessor c rkv
   else if c.camp = "bind" then oracleBind c chunks rkv
   else if c.camp = "simple" then oracleSimple c chunks rkv
+  else if c.camp = "ext" then oracleExt c chunks rkv
   else oracleExpect c chunks rkv
 
 def processLine (line : String) : String :=
@@ -337,7 +379,10 @@ def processLine (line : String) : String :=
     let direct := get ckv "direct"
     let m := if direct.isEmpty then (runModel c).1 else runDirect c direct
     let iout := get rkv "out"
-    let iev := get rkv "ev"
+    let iev0 := get rkv "ev"
+    let iev := if get ckv "evat" = "1" then
+        ";".intercalate ((iev0.splitOn ";").map fun e => match e.splitOn "#" with | [] => e | x :: _ => x)
+      else iev0
     let iend := get rkv "end"
     let same := m.out = iout ∧ m.ev = iev ∧ (m.stuffed ∨ m.ending = iend)
     let status := if m.unsup then "skip" else if same then "ok" else "diff"
